@@ -197,7 +197,7 @@ Proof.
   assert (Hfin : forall k, post_fin (io S s) = true -> q * T + r + 1 = m ls + T -> k < T -> getw s k <> W_Done ->
                  exists tid, enabled S tr tr_event c ispadding s tid = true).
   { intros k Hp HV Hk Hnd. apply (Hw k Hk).
-    destruct (fin_all_dead S tr tr_event c ispadding T sigma0 ls dS HT Hsig Hwf q r s k Hinv Hp HV Hk) as (_ & _ & Ha & _).
+    destruct (fin_all_dead S tr tr_event c ispadding T sigma0 ls dS HT Hsig q r s k Hinv Hp HV Hk) as (_ & _ & Ha & _).
     destruct (getw s k); try exact I; try contradiction; try congruence. }
   destruct (io S s) eqn:Eio; try (apply Hio0; exact I).
   - (* I_Asleep: the worker of the visited buffer can run *)
@@ -234,17 +234,17 @@ Proof.
   unfold terminal in Hterm. destruct (io S s) eqn:Eio; try discriminate.
   unfold IoInv in Hio. rewrite Eio in Hio. destruct Hio as (_ & Hin & Hov & Hlv & HV & _).
   cbn [io_extra loads_done visits_done post_fin] in *.
-  rewrite Nat.min_r in Hin, Hov by lia.
+  rewrite Nat.min_r in Hin by lia.
   split; [lia|]. split; [|split].
   - intros i Hi. split.
-    + destruct (fin_all_dead S tr tr_event c ispadding T sigma0 ls dS HT Hsig Hwf q r s i Hinv ltac:(rewrite Eio; reflexivity) HV Hi) as (Hs & _).
+    + destruct (fin_all_dead S tr tr_event c ispadding T sigma0 ls dS HT Hsig q r s i Hinv ltac:(rewrite Eio; reflexivity) HV Hi) as (Hs & _).
       exact Hs.
     + rewrite forallb_forall in Hterm. specialize (Hterm (getw s i)).
       destruct (getw s i) eqn:Ew; try reflexivity; exfalso;
         (assert (Hin' : In (nth i (wpcs S s) W_Done) (wpcs S s)) by (apply nth_In; lia));
         unfold PipeConc.getw in Ew; rewrite Ew in Hin'; specialize (Hterm Hin'); discriminate.
   - rewrite Hin. apply skipn_all.
-  - rewrite Hov. apply Nat.leb_refl.
+  - destruct Hov as [_ Hov]. apply Hov. cbn [attempts]. lia.
 Qed.
 
 (* ================= C03 ================= *)
@@ -274,7 +274,7 @@ Proof.
   rewrite <- EG. apply (nth_ext _ _ dS dS).
   - rewrite Lx. symmetry. apply (G_length S tr c ispadding T sigma0 ls Hsig).
   - intros k Hk. rewrite Lx in Hk.
-    destruct (fin_all_dead S tr tr_event c ispadding T sigma0 ls dS HT Hsig Hwf q r s k Hinv ltac:(rewrite Eio; reflexivity) HV Hk) as (_ & _ & _ & Hx).
+    destruct (fin_all_dead S tr tr_event c ispadding T sigma0 ls dS HT Hsig q r s k Hinv ltac:(rewrite Eio; reflexivity) HV Hk) as (_ & _ & _ & Hx).
     exact Hx.
 Qed.
 End Proofs.
@@ -336,10 +336,47 @@ Notation run0 := (run S0 tag_tr tag_event 1 true).
 
 Example ex_wf : 1 <= 2 /\ length (tag_init 2) = 2 /\ wf_loads ls0.
 Proof.
-  split; [lia|]. split; [reflexivity|]. unfold wf_loads. split; [discriminate|]. split.
+  split; [lia|]. split; [reflexivity|]. unfold wf_loads. split.
   - vm_compute. repeat constructor.
   - intros i Hi. change (length ls0) with 3 in *.
-    destruct i as [|[|[|i]]]; try lia; vm_compute; reflexivity.
+    destruct i as [|[|[|i]]]; try lia; vm_compute; intro H; try discriminate H; reflexivity.
+Qed.
+
+(* the load lists of a decryption with an empty body (no load at all) and with a body that is not a whole
+   number of blocks (one chunk of two blocks and 5 more bytes: a single NON-final load) are well formed,
+   and the pipeline terminates on them (first-enabled-thread schedule) *)
+Fixpoint greedy (S : Type) (tr : S -> list N -> S * list N) (c : nat) (pad : bool) (fuel : nat) (s : state S) : list nat :=
+  match fuel with
+  | O => []
+  | Datatypes.S f =>
+      match find (enabled S tr (fun _ _ => []) c pad s) (seq 0 (Datatypes.S (nT S s))) with
+      | Some t => match step S tr (fun _ _ => []) c pad s t with
+                  | Some (s', _) => t :: greedy S tr c pad f s'
+                  | None => []
+                  end
+      | None => []
+      end
+  end.
+Definition ls_ragged : list load := loads_of 2 false (map N.of_nat (seq 0 37)).
+Example ex_wf_empty_and_ragged :
+  loads_of 2 false [1%N; 2%N; 3%N] = [] /\ wf_loads [] /\
+  map ld_final ls_ragged = [false] /\ map ld_total ls_ragged = [2] /\ wf_loads ls_ragged.
+Proof.
+  split; [reflexivity|]. split; [split; [constructor|cbn [length]; intros i Hi; lia]|].
+  split; [reflexivity|]. split; [reflexivity|]. split.
+  - vm_compute. repeat constructor.
+  - intros i Hi. change (length ls_ragged) with 1 in *.
+    destruct i as [|i]; lia.
+Qed.
+Example ex_terminal_empty_and_ragged :
+  (exists sched s, run S0 tag_tr (fun _ _ => []) 2 false (init S0 2 (tag_init 2) []) sched = Some s /\
+                   terminal S0 s = true /\ output S0 s = [] /\ over S0 s = true) /\
+  (exists sched s, run S0 tag_tr (fun _ _ => []) 2 false (init S0 2 (tag_init 2) ls_ragged) sched = Some s /\
+                   terminal S0 s = true /\ length (concat (output S0 s)) = 32 /\ over S0 s = true).
+Proof.
+  split.
+  - exists (greedy S0 tag_tr 2 false 200 (init S0 2 (tag_init 2) [])). vm_compute. eexists. repeat split.
+  - exists (greedy S0 tag_tr 2 false 200 (init S0 2 (tag_init 2) ls_ragged)). vm_compute. eexists. repeat split.
 Qed.
 Example ex_all_ok : all_ok (snd (seq_chunks S0 tag_tr 1 true 2 (tag_init 2) 0 ls0)).
 Proof. vm_compute. repeat constructor; eexists; reflexivity. Qed.
